@@ -9,6 +9,7 @@ impl Checker for AnalyzeErrorChecker {
         DiagnosticCode::TypeNotFound,
         DiagnosticCode::AnnotationUsageError,
         DiagnosticCode::MissingTypeArgument,
+        DiagnosticCode::SyntaxError,
     ];
 
     fn check(context: &mut DiagnosticContext, _: &SemanticModel) {
